@@ -82,6 +82,8 @@ impl Wake for TaskWaker {
         // This send can fail if the executor has been dropped.
         // In which case, nothing to do
         let _ = self.sender.send(self.task_id);
+        #[cfg(crux_verif)]
+        crate::verif::point_val("qe.wake", u64::from(*self.task_id));
     }
 }
 // ANCHOR_END: wake
@@ -95,19 +97,29 @@ impl QueuingExecutor {
         // we read from them in a loop until we are sure both queues
         // are exhausted
         let mut did_some_work = true;
+        #[cfg(crux_verif)]
+        crate::verif::point("qe.run_all.enter");
 
         while did_some_work {
             did_some_work = false;
             while let Ok(task) = self.spawn_queue.try_recv() {
+                #[cfg(crux_verif)]
+                crate::verif::point("qe.spawn.popped");
                 let task_id = self
                     .tasks
                     .lock()
                     .expect("Task slab poisoned")
                     .insert(Some(task));
+                #[cfg(crux_verif)]
+                crate::verif::point_val("qe.spawn.inserted", task_id as u64);
                 self.run_task(TaskId(task_id.try_into().expect("TaskId overflow")));
                 did_some_work = true;
             }
+            #[cfg(crux_verif)]
+            crate::verif::point("qe.spawn.empty");
             while let Ok(task_id) = self.ready_queue.try_recv() {
+                #[cfg(crux_verif)]
+                crate::verif::point_val("qe.ready.popped", u64::from(*task_id));
                 match self.run_task(task_id) {
                     RunTask::Unavailable => {
                         // We were unable to run the task as it is (presumably) being run on
@@ -119,6 +131,8 @@ impl QueuingExecutor {
                         // FIXME: are we potentially sending ourselves `Unavailable` and reading it
                         // in a loop - busy looping here?
                         self.ready_sender.send(task_id).expect("could not requeue");
+                        #[cfg(crux_verif)]
+                        crate::verif::point_val("qe.requeued", u64::from(*task_id));
                     }
                     RunTask::Missing => {
                         // This is possible if a naughty future sends a wake notification while
@@ -128,22 +142,36 @@ impl QueuingExecutor {
                     RunTask::Suspended | RunTask::Completed => did_some_work = true,
                 }
             }
+            #[cfg(crux_verif)]
+            crate::verif::point_val("qe.ready.empty", u64::from(did_some_work));
         }
     }
 
     fn run_task(&self, task_id: TaskId) -> RunTask {
         let mut lock = self.tasks.lock().expect("Task slab poisoned");
         let Some(task) = lock.get_mut(*task_id as usize) else {
+            #[cfg(crux_verif)]
+            {
+                drop(lock);
+                crate::verif::point_val("qe.run_task.missing", u64::from(*task_id));
+            }
             return RunTask::Missing;
         };
         let Some(mut task) = task.take() else {
             // the slot exists but the task is missing - presumably it
             // is being executed on another thread
+            #[cfg(crux_verif)]
+            {
+                drop(lock);
+                crate::verif::point_val("qe.run_task.unavailable", u64::from(*task_id));
+            }
             return RunTask::Unavailable;
         };
 
         // free the mutex so other threads can make progress
         drop(lock);
+        #[cfg(crux_verif)]
+        crate::verif::point_val("qe.run_task.taken", u64::from(*task_id));
 
         let waker = Arc::new(TaskWaker {
             task_id,
@@ -155,18 +183,34 @@ impl QueuingExecutor {
         // poll the task
         if task.as_mut().poll(context).is_pending() {
             // If it's still pending, put the future back in the slot
+            #[cfg(crux_verif)]
+            crate::verif::point_val("qe.run_task.pending", u64::from(*task_id));
             self.tasks
                 .lock()
                 .expect("Task slab poisoned")
                 .get_mut(*task_id as usize)
                 .expect("Task slot is missing")
                 .replace(task);
+            #[cfg(crux_verif)]
+            crate::verif::point_val("qe.run_task.putback", u64::from(*task_id));
             RunTask::Suspended
         } else {
             // otherwise the future is completed and we can free the slot
+            #[cfg(crux_verif)]
+            crate::verif::point_val("qe.run_task.ready", u64::from(*task_id));
             self.tasks.lock().unwrap().remove(*task_id as usize);
+            #[cfg(crux_verif)]
+            crate::verif::point_val("qe.run_task.removed", u64::from(*task_id));
             RunTask::Completed
         }
+    }
+}
+
+#[cfg(crux_verif)]
+impl QueuingExecutor {
+    /// Verification hook (read-only): lengths of the spawn queue and of the ready queue.
+    pub(crate) fn verif_queue_lens(&self) -> (usize, usize) {
+        (self.spawn_queue.len(), self.ready_queue.len())
     }
 }
 
